@@ -9,6 +9,16 @@ open Generated
 /-- C11: readLine copies the first fragment before it calls ReadLine again (Reader.joinFragments true). -/
 theorem readLine_copies_first_fragment : readLineCopiesFirstFragment = true := by decide
 
+/-- C11 / C08 / C10: the reading layer of message.go uses its `bufio.Reader` through exactly the operations that
+`Reader/Bufio.lean` models (`ReadLine` twice in `readLine` - first fragment and continuation loop -, `ReadByte` /
+`UnreadByte` in `skipWhiteSpace`, and `ParseMessage` hands the reader to `skipWhiteSpace`, `readLine` and
+`io.CopyN`, in this order). A rewrite with `ReadBytes`, `ReadString`, `Peek` / `Discard`, `ReadFull` ... changes
+the list: the refinement theorems of `Lemmas/Bufio.lean` would then be about operations the code no longer uses. -/
+theorem reader_operations_as_modelled : readerCalls =
+    [("readLine", ["reader.ReadLine", "reader.ReadLine"]),
+     ("skipWhiteSpace", ["reader.ReadByte", "reader.UnreadByte"]),
+     ("ParseMessage", ["skipWhiteSpace(reader)", "readLine(reader)", "io.CopyN(reader)"])] := by decide
+
 /-- C10: the UDP parse loop builds its reader over the first n bytes of the pooled buffer only … -/
 theorem udp_reader_over_datagram : udpReaderOver = "sized_byte_array.b[:sized_byte_array.n]" := by decide
 
